@@ -93,3 +93,9 @@ Proof.
   rewrite E in P1. rewrite P1 in P2. injection P2 as P2. exact P2.
 Qed.
 Print Assumptions C13_display_int_injective.
+
+(* likewise ==: Rust compares the UTF-8 bytes, the model the scalar values — the same relation *)
+Theorem C13_str_eq_is_byte_eq :
+  forall s t : list N, utf8_encode s = utf8_encode t <-> s = t.
+Proof. exact utf8_encode_eq_iff. Qed.
+Print Assumptions C13_str_eq_is_byte_eq.
